@@ -605,6 +605,6 @@ func init() {
 			"distinct = distinct (range, #values reached); non-trivial = range with more than one value.",
 		Assumptions: []string{"freshness (iv) depends on the runtime's hash seed, which no harness can enumerate: this clause observes 8 runs and is not exhaustive", "'a few thousand draws' is decided literally as seeds 0..4095 of the real PRNG"},
 		Units:       c18Units,
-		Budget:      map[string]time.Duration{"quick": 55 * time.Second, "thorough": 25 * time.Minute},
+		Budget:      map[string]time.Duration{"quick": 80 * time.Second, "thorough": 25 * time.Minute},
 	})
 }
